@@ -1,12 +1,16 @@
 (* C17 — Authorisation is enforced on every route a message can take.
    Statements only; proofs are [exact lemma].  Everything is quantified over ALL permission relations
    [perm : client -> topic-or-filter -> write? -> bool] (the answer of the ACL hooks), all matching
-   relations and filter-validity predicates, and ALL histories [ops] from the empty broker:
-   [emitted ob evs] = evs is what the connections received in some step of some history,
-   [reachable ob st] = st is the broker state after some history.  The model is that of the repaired
-   code (fix 411d180: will topic validated at CONNECT, sendLWT checks validity and write permission);
-   the pre-fix behaviour is documented in Findings/FixedC17.v.  C17-3 (storage hooks persisting refused
-   subscriptions) is a matter of the storage model (C20-C22), not of this routing model. *)
+   relations, filter-validity and shared-filter predicates, and ALL histories from the empty broker, each
+   step with an arbitrary share-group oracle (which member of a group Go's map iteration picks):
+   [emitted ... ob evs] = evs is what the connections received in some step of some history,
+   [reachable ... ob st] = st is the broker state after some history.  Histories contain connects (also
+   over a live connection: takeover, with the will of the connection taken over), DISCONNECT with and
+   without will, network drops, publishes at QoS 0-2 (with PUBREL, retransmission) with or without topic
+   alias, subscribes (plain and $share filters, No-Local), inline publishes, will ticks, session expiry.
+   The model is that of the repaired code (fix 411d180: will topic validated at CONNECT, sendLWT checks
+   validity and write permission); the pre-fix behaviour is documented in Findings/FixedC17.v.  C17-3
+   (storage hooks persisting refused subscriptions) is a matter of the storage model (C20-C22). *)
 From MV Require Import Base.Val Topics.Levels Topics.Match Hooks.Chain Auth.Acl Auth.AclProofs.
 Open Scope N_scope.
 
@@ -14,89 +18,141 @@ Section C17.
 Variable perm : client -> bytes -> bool -> bool.
 Variable matches : bytes -> bytes -> bool.
 Variable valid_filter : bytes -> bool.
+Variable is_shared : bytes -> bool.
+Variable eff : bytes -> bytes.
+Local Notation emitted := (emitted perm matches valid_filter is_shared eff).
+Local Notation reachable := (reachable perm matches valid_filter is_shared eff).
+Local Notation astep := (astep perm matches valid_filter is_shared eff).
 
-(* No client receives a message on a topic its read permission denies — live fan-out, retained
-   messages replayed on subscribe, messages kept for an offline session and resent later, wills. *)
+(* No client receives a message on a topic its read permission denies — live fan-out (also as the
+   chosen member of a share group), retained messages replayed on subscribe, messages kept for an
+   offline session and resent on resumption or takeover, wills. *)
 Theorem C17_read : forall (ob : bool) (evs : list (client * aev)) (c : client) (m : msg),
-  emitted perm matches valid_filter ob evs -> In (c, ADeliver m) evs -> perm c (m_topic m) false = true.
-Proof. exact (read_enforced perm matches valid_filter). Qed.
+  emitted ob evs -> In (c, ADeliver m) evs -> perm c (m_topic m) false = true.
+Proof. exact (read_enforced perm matches valid_filter is_shared eff). Qed.
 
 (* No message from a non-inline client is delivered or retained on a topic its write permission denies
-   (nor on an invalid or $SYS topic): this holds for everything delivered in any step (forwarding,
-   wills, delayed wills, retained replay, resend) and for everything the broker keeps (retained store,
-   in-flight queues of offline sessions, pending delayed wills) in any reachable state. *)
+   (nor on an invalid or $SYS topic): this holds for everything delivered in any step (forwarding, wills,
+   delayed wills, the will published at a takeover, retained replay, resend) and for everything the
+   broker keeps (retained store, in-flight queues of offline sessions, pending delayed wills) in any
+   reachable state.  Topic aliases are no way around it: every alias of every connection is bound to a
+   topic its client may write (the ACL is asked about the topic in the packet — the empty string for an
+   alias-only packet — but an alias can only be bound by a packet that carries the topic and passed). *)
 Theorem C17_write : forall (ob : bool),
-  (forall evs c m, emitted perm matches valid_filter ob evs -> In (c, ADeliver m) evs -> msg_ok perm m) /\
-  (forall st, reachable perm matches valid_filter ob st ->
+  (forall evs c m, emitted ob evs -> In (c, ADeliver m) evs -> msg_ok perm m) /\
+  (forall st, reachable ob st ->
      (forall t m, In (t, m) (a_ret st) -> t = m_topic m /\ msg_ok perm m) /\
      (forall c s m, In (c, s) (a_cl st) -> In m (c_queue s) -> msg_ok perm m /\ perm c (m_topic m) false = true) /\
-     (forall c m, In (c, m) (a_delayed st) -> msg_ok perm m)).
-Proof. exact (write_enforced perm matches valid_filter). Qed.
+     (forall c m, In (c, m) (a_delayed st) -> msg_ok perm m) /\
+     (forall c s a t, In (c, s) (a_cl st) -> In (a, t) (c_alias s) -> perm c t true = true /\ valid_pub_topic t = true)).
+Proof. exact (write_enforced perm matches valid_filter is_shared eff). Qed.
 
 (* Subscriptions to denied filters are refused (0x87; 0x80 when obscured or for MQTT 3) and never
-   deliver: the index of every reachable state holds only valid filters the client may read, and every
-   delivery rests on such a filter matching the topic. *)
+   deliver.  The filter the ACL is asked about is the string the client sent, including a
+   $share/<group>/ prefix (that is what processSubscribe does); the index of every reachable state holds
+   only valid filters the client was permitted, and every delivery rests on such a filter whose
+   EFFECTIVE filter (behind the share prefix) matches the topic — and, by C17_read, on read permission
+   for the topic itself, also for the member a share group happened to choose. *)
 Theorem C17_sub_refused : forall (ob : bool),
-  (forall ver cl fs i f q, nth_error fs i = Some (f, q) -> valid_filter f = true -> perm cl f false = false ->
-     nth_error (fst (sub_codes perm valid_filter ver ob cl fs)) i = Some (if (ver <? 5) || ob then 128 else 135)) /\
-  (forall st c f q, reachable perm matches valid_filter ob st -> In (c, (f, q)) (a_subs st) ->
-     valid_filter f = true /\ perm c f false = true) /\
-  (forall evs c m, emitted perm matches valid_filter ob evs -> In (c, ADeliver m) evs ->
-     exists f, valid_filter f = true /\ perm c f false = true /\ matches f (m_topic m) = true).
-Proof. exact (sub_refused perm matches valid_filter). Qed.
+  (forall ver cl fs i f q nl, nth_error fs i = Some (f, (q, nl)) -> valid_filter f = true -> nl && is_shared f = false ->
+     perm cl f false = false ->
+     nth_error (fst (sub_codes perm valid_filter is_shared ver ob cl fs)) i = Some (if (ver <? 5) || ob then 128 else 135)) /\
+  (forall st c f o, reachable ob st -> In (c, (f, o)) (a_subs st) -> valid_filter f = true /\ perm c f false = true) /\
+  (forall evs c m, emitted ob evs -> In (c, ADeliver m) evs ->
+     exists f, valid_filter f = true /\ perm c f false = true /\ matches (eff_of is_shared eff f) (m_topic m) = true).
+Proof. exact (sub_refused perm matches valid_filter is_shared eff). Qed.
 
 (* Clients cannot publish to $SYS topics: such a publish changes nothing and reaches nobody (and by
-   C17_write no client message on a $SYS topic is ever delivered, retained or queued: msg_ok demands
-   valid_pub_topic). *)
-Theorem C17_sys : forall (ob : bool) (st : ast) (cl : client) (topic payload : bytes) (qos : N) (rt : bool) (pid : N),
+   C17_write no client message on a $SYS topic is ever delivered, retained, queued or aliased). *)
+Theorem C17_sys : forall (ob : bool) (sel : bytes -> client -> bool) (st : ast) (cl : client) (topic payload : bytes)
+                         (qos : N) (rt : bool) (pid alias : N),
   prefix (tag "$SYS") topic = true -> has_wild topic = false ->
-  fst (astep perm matches valid_filter ob st (APublish cl topic payload qos rt pid)) = st /\
-  forall c m, ~ In (c, ADeliver m) (snd (astep perm matches valid_filter ob st (APublish cl topic payload qos rt pid))).
-Proof. exact (sys_refused perm matches valid_filter). Qed.
+  fst (astep ob sel st (APublish cl topic payload qos rt pid alias)) = st /\
+  forall c m, ~ In (c, ADeliver m) (snd (astep ob sel st (APublish cl topic payload qos rt pid alias))).
+Proof. exact (sys_refused perm matches valid_filter is_shared eff). Qed.
 
 (* Will topics must be valid topic names: a CONNECT with any other will topic is refused and changes
-   nothing; every will held by a session of a reachable state has a valid topic name. *)
+   nothing (a live connection of the same id is not even taken over); every will held by a session of a
+   reachable state has a valid topic name. *)
 Theorem C17_will_topic_valid : forall (ob : bool),
-  (forall st cl ver clean w, valid_pub_topic (w_topic w) = false ->
-     astep perm matches valid_filter ob st (AConnect cl ver clean (Some w)) = (st, [(cl, AConnack false false); (cl, AClosed)])) /\
-  (forall st c s w, reachable perm matches valid_filter ob st -> In (c, s) (a_cl st) -> c_will s = Some w ->
-     valid_pub_topic (w_topic w) = true).
-Proof. exact (will_topic_valid perm matches valid_filter). Qed.
+  (forall sel st cl ver clean w, valid_pub_topic (w_topic w) = false ->
+     astep ob sel st (AConnect cl ver clean (Some w)) = (st, [(cl, AConnack false false); (cl, AClosed)])) /\
+  (forall st c s w, reachable ob st -> In (c, s) (a_cl st) -> c_will s = Some w -> valid_pub_topic (w_topic w) = true).
+Proof. exact (will_topic_valid perm matches valid_filter is_shared eff). Qed.
 
 End C17.
 
 (* ---------- non-vacuity: concrete permission tables and histories ---------- *)
 Definition tblx : acl_table :=
   [ (tag "p", (tag "a/x", true)); (tag "s", (tag "a/#", false)); (tag "s", (tag "a/x", false));
-    (tag "s", (tag "d/#", false)); (tag "p", (tag "d/x", true)) ].
-Definition run_x := arun (perm_of tblx) topic_matches valid_filter_spec false a_init.
+    (tag "s", (tag "d/#", false)); (tag "p", (tag "d/x", true)); (tag "p", ([], true));
+    (tag "g", (tag "$share/k/a/#", false)); (tag "h", (tag "$share/k/a/#", false)); (tag "h", (tag "a/x", false)) ].
+Definition first_sel : bytes -> client -> bool := fun _ _ => true.
+Definition pick (c : bytes) : bytes -> client -> bool := fun _ m => beq_bytes m c.
+Definition run_sel (ops : list ((bytes -> client -> bool) * aop)) :=
+  arun (perm_of tblx) topic_matches valid_filter_spec is_share eff_filter false a_init ops.
+Definition run_x (ops : list aop) := run_sel (map (fun o => (first_sel, o)) ops).
 Definition wl (t : bytes) (delay : bool) : option will := Some (mkW t [9] 1 true delay).
+Definition pub (c : bytes) (t : bytes) (p : bytes) (q : N) (r : bool) (pid al : N) := APublish c t p q r pid al.
 
 (* a permitted publish is delivered and retained; the subscriber may read a/x but not d/x although its
    filter d/# was granted: the message on d/x is retained (write allowed) but not delivered *)
 Example C17_delivers :
-  snd (run_x [AConnect (tag "s") 5 true None; ASubscribe (tag "s") 1 [(tag "a/#", 1); (tag "d/#", 0); (tag "b/#", 0)];
-              AConnect (tag "p") 4 true None; APublish (tag "p") (tag "a/x") [1] 1 true 7;
-              APublish (tag "p") (tag "d/x") [2] 0 true 0]) =
+  snd (run_x [AConnect (tag "s") 5 true None;
+              ASubscribe (tag "s") 1 [(tag "a/#", (1, false)); (tag "d/#", (0, false)); (tag "b/#", (0, false))];
+              AConnect (tag "p") 4 true None; pub (tag "p") (tag "a/x") [1] 1 true 7 0;
+              pub (tag "p") (tag "d/x") [2] 0 true 0 0]) =
   [ [(tag "s", AConnack true false)]; [(tag "s", ASuback 1 [1; 0; 135])]; [(tag "p", AConnack true false)];
     [(tag "p", AAck 4 7 0); (tag "s", ADeliver (mkM (Some (tag "p")) (tag "a/x") [1] 1 true))]; [] ] /\
-  map fst (a_ret (fst (run_x [AConnect (tag "p") 4 true None; APublish (tag "p") (tag "a/x") [1] 1 true 7;
-                               APublish (tag "p") (tag "d/x") [2] 0 true 0]))) = [tag "d/x"; tag "a/x"].
+  map fst (a_ret (fst (run_x [AConnect (tag "p") 4 true None; pub (tag "p") (tag "a/x") [1] 1 true 7 0;
+                               pub (tag "p") (tag "d/x") [2] 0 true 0 0]))) = [tag "d/x"; tag "a/x"].
 Proof. vm_compute. split; reflexivity. Qed.
 
-(* wills: on a permitted topic the will is delivered and retained when the connection drops; on a topic
-   the client may not write it is neither; on a wildcard or $SYS topic the CONNECT is refused *)
+(* wills: on a permitted topic the will is delivered and retained when the connection drops — or is
+   taken over; on a topic the client may not write it is neither; on a wildcard or $SYS topic the
+   CONNECT is refused *)
 Example C17_wills :
-  snd (run_x [AConnect (tag "s") 4 true None; ASubscribe (tag "s") 1 [(tag "a/#", 0)];
+  snd (run_x [AConnect (tag "s") 4 true None; ASubscribe (tag "s") 1 [(tag "a/#", (0, false))];
               AConnect (tag "p") 4 true (wl (tag "a/x") false); ANetClose (tag "p")]) =
   [ [(tag "s", AConnack true false)]; [(tag "s", ASuback 1 [0])]; [(tag "p", AConnack true false)];
     [(tag "p", AClosed); (tag "s", ADeliver (mkM (Some (tag "p")) (tag "a/x") [9] 1 true))] ] /\
-  (let r := run_x [AConnect (tag "s") 4 true None; ASubscribe (tag "s") 1 [(tag "a/#", 0)];
+  nth 3 (snd (run_x [AConnect (tag "s") 4 true None; ASubscribe (tag "s") 1 [(tag "a/#", (0, false))];
+                     AConnect (tag "p") 4 true (wl (tag "a/x") false); AConnect (tag "p") 4 true None])) [] =
+    [(tag "p", AConnack true false); (tag "p", AClosed); (tag "s", ADeliver (mkM (Some (tag "p")) (tag "a/x") [9] 1 true))] /\
+  (let r := run_x [AConnect (tag "s") 4 true None; ASubscribe (tag "s") 1 [(tag "a/#", (0, false))];
                    AConnect (tag "p") 4 true (wl (tag "a/y") false); ANetClose (tag "p")] in
    nth 3 (snd r) [] = [(tag "p", AClosed)] /\ a_ret (fst r) = []) /\
   snd (run_x [AConnect (tag "p") 5 true (wl (tag "$SYS/w") false)]) = [[(tag "p", AConnack false false); (tag "p", AClosed)]] /\
   snd (run_x [AConnect (tag "p") 5 true (wl (tag "a/+/#") true)]) = [[(tag "p", AConnack false false); (tag "p", AClosed)]].
 Proof. vm_compute. repeat split. Qed.
+
+(* topic aliases: alias 1 is bound to a/x by a permitted publish; an attempt to re-bind it to a/y (not
+   permitted) is refused and leaves the binding; the alias-only packet (the ACL is asked about "") then
+   goes to a/x.  An alias-only packet on an alias never bound ends the connection. *)
+Example C17_alias :
+  snd (run_x [AConnect (tag "s") 5 true None; ASubscribe (tag "s") 1 [(tag "a/#", (0, false))];
+              AConnect (tag "p") 5 true None; pub (tag "p") (tag "a/x") [1] 0 false 0 1;
+              pub (tag "p") (tag "a/y") [2] 1 false 8 1; pub (tag "p") [] [3] 0 false 0 1;
+              pub (tag "p") [] [4] 0 false 0 2]) =
+  [ [(tag "s", AConnack true false)]; [(tag "s", ASuback 1 [0])]; [(tag "p", AConnack true false)];
+    [(tag "s", ADeliver (mkM (Some (tag "p")) (tag "a/x") [1] 0 false))];
+    [(tag "p", AAck 4 8 135)];
+    [(tag "s", ADeliver (mkM (Some (tag "p")) (tag "a/x") [3] 0 false))];
+    [(tag "p", AClosed)] ].
+Proof. vm_compute. reflexivity. Qed.
+
+(* share group k on a/#: g and h were both permitted the $share filter; h may read a/x, g may not.  When
+   the group picks h the message arrives, when it picks g it is lost for the group — never delivered to
+   a member that may not read the topic *)
+Definition share_ops (c : bytes) : list ((bytes -> client -> bool) * aop) :=
+  map (fun o => (pick c, o))
+      [AConnect (tag "g") 5 true None; ASubscribe (tag "g") 1 [(tag "$share/k/a/#", (0, false))];
+       AConnect (tag "h") 5 true None; ASubscribe (tag "h") 1 [(tag "$share/k/a/#", (0, false))];
+       AConnect (tag "p") 4 true None; pub (tag "p") (tag "a/x") [1] 0 false 0 0].
+Example C17_share :
+  nth 5 (snd (run_sel (share_ops (tag "h")))) [] = [(tag "h", ADeliver (mkM (Some (tag "p")) (tag "a/x") [1] 0 false))] /\
+  nth 5 (snd (run_sel (share_ops (tag "g")))) [(tag "x", AClosed)] = [].
+Proof. vm_compute. split; reflexivity. Qed.
 
 Print Assumptions C17_read.
 Print Assumptions C17_write.
